@@ -72,6 +72,12 @@ structure Side where
   allocFree : Option Nat := none
   /-- `outstanding` of the model at the last quiescent point -/
   outAtSettle : List Nat := []
+  /-- an `accept()` call of this side was just cancelled although no port number had been free at any quiescent
+  point of its life: it cannot have taken a request out of the listener queue (it waits for a port first), so
+  until the next quiescent point its cancellation cannot reject anything -/
+  acceptNoPort : Bool := false
+  /-- the script dropped this side's listener (the drop takes effect when the last pending listener call ends) -/
+  listenerGone : Bool := false
 
 structure CSim where
   name : String := ""
@@ -98,6 +104,10 @@ structure CSim where
   toB : List Msg := []
   sawPortData : Bool := false
   invOk : Bool := true
+  /-- pending `Listener::accept` calls: call id ↦ (side, no port number was free at any quiescent point so far) -/
+  accepts : AL (String × Bool) := []
+  /-- script operations since the last quiescent point -/
+  opsSinceSettle : Nat := 0
   invChecks : Nat := 0
   replayOk : Bool := true
   c07 : Bool := true
@@ -142,6 +152,13 @@ def pruneDone (ps : List WPort) : List WPort := ps.filter (fun p => !p.done)
 /-- message `m` put on the wire by side `x` -/
 def CSim.onTxMsg (s : CSim) (line : Nat) (x : String) (m : Msg) : CSim :=
   let sd := s.side x
+  -- true reason of a refusal: cancelling an accept() that was still waiting for a port number answers nothing
+  let s := match m with
+    | .rejected cp false =>
+      if sd.acceptNoPort && s.stalled.isEmpty && !s.teardown && !s.sawPortData then
+        s.fail "c10" line s!"side {x} rejects the request of remote port {cp} although its listener never answered it: the only thing that happened is the cancellation of an accept() that was waiting for a free port number"
+      else s
+    | _ => s
   -- ---------- real-observation predicates
   let (s, sd) : CSim × Side := match m with
     | .openPort cp _ _ =>
@@ -405,6 +422,17 @@ def finishTrace (s : CSim) : IO Unit := do
 def stepLine (a : CAcc) (n : Nat) (line : String) : IO CAcc := do
   let ws := words line
   let s := { a.sim with events := a.sim.events + 1 }
+  -- `acceptNoPort` is meaningful only while the cancellation is the single operation of its quiescence window
+  let firstOp := s.opsSinceSettle == 0
+  let s := match ws with
+    | "op" :: kind :: _ =>
+      if kind == "settle" then s
+      else if firstOp then { s with opsSinceSettle := 1 }
+      else { s with opsSinceSettle := s.opsSinceSettle + 1, a := { s.a with acceptNoPort := false }, b := { s.b with acceptNoPort := false } }
+    | _ => s
+  let s := match ws with
+    | ["op", "droplistener", x] => s.setSide x { s.side x with listenerGone := true }
+    | _ => s
   match ws with
   | ["trace", name] =>
     finishTrace a.sim
@@ -441,6 +469,17 @@ def stepLine (a : CAcc) (n : Nat) (line : String) : IO CAcc := do
   | ["opd", "send", _, x, _, hx] =>
     return { a with sim := { s with sendsByPayload := s.sendsByPayload.set hx (x, n) } }
   | ["op", "dropall"] => return { a with sim := { s with teardown := true } }
+  | "op" :: "accept" :: k :: x :: _ =>
+    let sd := s.side x
+    let exhausted := sd.maxPorts > 0 && sd.ep.allocated.length ≥ sd.maxPorts
+    return { a with sim := { s with accepts := s.accepts.set k (x, exhausted) } }
+  | ["op", "cancel", k] =>
+    match s.accepts.get? k with
+    | some (x, true) =>
+      let sd := s.side x
+      let exhausted := sd.maxPorts > 0 && sd.ep.allocated.length ≥ sd.maxPorts
+      return { a with sim := (s.setSide x { sd with acceptNoPort := exhausted && firstOp && !sd.listenerGone }) }
+    | _ => return { a with sim := s }
   | ["op", kind, x, v] =>
     if kind == "window" || kind == "release" then
       let key := kind ++ x
@@ -448,7 +487,12 @@ def stepLine (a : CAcc) (n : Nat) (line : String) : IO CAcc := do
       return { a with sim := { s with stalled := if v == "inf" then st else st ++ [key] } }
     else return { a with sim := s }
   | "settled" :: _ =>
-    let s := { s with a := { s.a with outAtSettle := s.a.ep.outstanding }, b := { s.b with outAtSettle := s.b.ep.outstanding } }
+    let s := { s with opsSinceSettle := 0 }
+    let s := { s with a := { s.a with outAtSettle := s.a.ep.outstanding, acceptNoPort := false },
+                      b := { s.b with outAtSettle := s.b.ep.outstanding, acceptNoPort := false } }
+    let s := { s with accepts := s.accepts.map (fun (k, (x, fl)) =>
+      let sd := s.side x
+      (k, (x, fl && sd.maxPorts > 0 && sd.ep.allocated.length ≥ sd.maxPorts))) }
     if s.teardown || !s.stalled.isEmpty then return { a with sim := s } else
     let chk := fun (s : CSim) (x : String) =>
       match (s.side x).run, (s.side x).expectTx with
@@ -479,6 +523,7 @@ def stepLine (a : CAcc) (n : Nat) (line : String) : IO CAcc := do
       return { a with sim := { s with a := fix s.a, b := fix s.b } }
     | none => return { a with sim := s }
   | "ret" :: k :: res =>
+    let s := { s with accepts := s.accepts.filter (·.1 != k) }
     -- a connect call that failed before sending anything never produces an OpenPort
     let s := { s with awaitingOpen := s.awaitingOpen.filter (fun (_, c) => !(c == k && (res.head? == some "err") && (s.connects.get? k).bind (fun v => v.2.2.1) == none && !(res == ["err", "rejected"]))) }
     return { a with sim := s.onRet n k res }
